@@ -276,7 +276,7 @@ func c10Corruptions(world, other *rvWorld, base *Update) []c10Cor {
 func TestVerifC10(t *testing.T) {
 	r := vkit.Start(t, "C10", "update-corruptions", 240*time.Second, 1500*time.Second)
 	defer r.Finish()
-	r.Rule = "base updates with 0,1,4,8,9 events of a 8-revocation history; every single corruption of the menu (event value/index +-1, swaps, delete/duplicate/insert, every byte flip / truncation length / extension / algorithm code / shorter well-formed digest of every parent hash, every byte of the signed accumulator blob, key counter +-1, accumulator substituted by every other validly signed one or by another key's, foreign events, the library's unexported-by-tag cache field for the verified accumulator filled in by the sender), thorough: every pair from the reduced menu; x transport {memory, JSON, CBOR, JSON / CBOR with the corruption made on the decoded object, and JSON / CBOR decoded into an Update value that already received and verified the authentic message} ; one received object verified under the issuer's key and then presented under another key (same / other counter); x operations {Update.Verify, Witness.Update on witnesses just before / inside / at / ahead of the message's window incl. re-signed accumulators with a later time, Update.Prepend (onto an update with and without events of its own), EventList.Verify}; non-trivial = corruption whose received message differs from the base; oracle: independent validator - success => authentic, rejection => receiver state unchanged"
+	r.Rule = "base updates with 0,1,4,8,9 events of a 8-revocation history; every single corruption of the menu (event value/index +-1, swaps, delete/duplicate/insert, every byte flip / truncation length / extension / algorithm code / shorter well-formed digest of every parent hash, every byte of the signed accumulator blob, key counter +-1, accumulator substituted by every other validly signed one or by another key's, foreign events, the library's unexported-by-tag cache field for the verified accumulator filled in by the sender), thorough: every pair from the reduced menu; x transport {memory, JSON, CBOR, JSON / CBOR with the corruption made on the decoded object, and JSON / CBOR decoded into an Update value that already received and verified the authentic message (whose signed-accumulator object, as handed to witnesses, must stay as it was)} ; one received object verified under the issuer's key and then presented under another key (same / other counter); x operations {Update.Verify, Witness.Update on witnesses just before / inside / at / ahead of the message's window incl. re-signed accumulators with a later time, Update.Prepend (onto an update with and without events of its own), EventList.Verify}; non-trivial = corruption whose received message differs from the base; oracle: independent validator - success => authentic, rejection => receiver state unchanged"
 	rvInstallEnv(t, "C10", r.Seed)
 	sk, pk := rvKeys(32, 7)
 	sk2, pk2 := rvKeys(32, 7)
@@ -384,12 +384,20 @@ func TestVerifC10(t *testing.T) {
 						if _, err := used.Verify(pk); err != nil {
 							return nil
 						}
+						// (a witness that was updated with the first message holds its signed-accumulator OBJECT: receiving
+						// another message must not write into it)
+						handedOut := used.SignedAccumulator
+						snapshot := append([]byte{}, handedOut.Data...)
+						snapCounter := handedOut.PKCounter
 						u := c10Wire(base)
 						for _, c := range combo {
 							c.f(u)
 						}
 						if c10TransportInto(u, inner, used) != nil {
 							return nil
+						}
+						if !bytes.Equal(snapshot, handedOut.Data) || snapCounter != handedOut.PKCounter {
+							r.Violate("C10|receiving-a-message-altered-an-object-handed-out-earlier|"+class, fmt.Sprintf("base %d, %s (%s): decoding the message into the used Update value wrote into the signed-accumulator object of the message received before (which witnesses updated with it hold)", bi, desc, form), map[string]any{"base": bi, "corruption": desc, "transport": form})
 						}
 						return used
 					}
